@@ -27,7 +27,7 @@ another that was validated separately, and so that theorems proved about one mod
 
 Sections: 1 streams C01↔C05; 2 `_fc_run`, `Sequence.__init__/run` C01↔C05; 3 the vocabularies, `driveSeq_agree`;
 4 machines/list semantics C02 ↔ streams; 5 `Slice` C17 ↔ streams; 6 `RunIf` C10↔C02↔C01; 7 concrete values
-C02↔Flow; 8 transfers C01↔C05; 9 the `_Fill` chain C02↔C05.  Every agreement is stated for all inputs; where two
+C02↔Flow; 8 transfers C01↔C05; 9 the `_Fill` chain C02↔C05; 10 what the executable cross-check evaluates.  Every agreement is stated for all inputs; where two
 models legitimately differ the common domain is a hypothesis and the comment says what is outside it. -/
 
 namespace Lena.Bridge.Flow
@@ -757,6 +757,89 @@ def CommonL : List Lena.C05.Spec → Prop
   | [] => True
   | s :: ss => Common s ∧ CommonL ss
 
+mutual
+/-- executable forms of `Stateless`, `StatelessL` (evaluated by `drivers/BridgeFlow.lean`) -/
+def statelessB : Lena.C05.Spec → Bool
+  | .call _ => true
+  | .var _ _ => true
+  | .filter _ => true
+  | .slice _ _ _ => true
+  | .runIf _ inner => statelessLB inner
+  | .reverse => true
+  | .end_ => true
+  | .syn attrs c _ =>
+    decide ((attrs.lookup "run").getD .absent = .method) || c ||
+      !(((attrs.lookup "fill").getD .absent).callable && ((attrs.lookup "compute").getD .absent).callable)
+  | .junk => true
+  | .setContext => true
+  | _ => false
+def statelessLB : List Lena.C05.Spec → Bool
+  | [] => true
+  | s :: ss => statelessB s && statelessLB ss
+end
+
+/-- executable form of `Common` -/
+def commonB : Lena.C05.Spec → Bool
+  | .call _ => true
+  | .var _ _ => true
+  | .filter _ => true
+  | .slice _ _ _ => true
+  | .runIf _ inner => statelessLB inner
+  | .count _ => true
+  | .reverse => true
+  | .end_ => true
+  | .acc _ => true
+  | .syn _ _ _ => true
+  | .junk => true
+  | .setContext => true
+  | _ => false
+
+def commonLB : List Lena.C05.Spec → Bool
+  | [] => true
+  | s :: ss => commonB s && commonLB ss
+
+mutual
+theorem statelessB_sound : ∀ s : Lena.C05.Spec, statelessB s = true → Stateless s
+  | .call _, _ => trivial
+  | .var _ _, _ => trivial
+  | .filter _, _ => trivial
+  | .slice _ _ _, _ => trivial
+  | .runIf _ inner, h => by
+    simp only [statelessB] at h
+    simp only [Stateless]
+    exact statelessLB_sound inner h
+  | .reverse, _ => trivial
+  | .end_, _ => trivial
+  | .syn attrs c _, h => by
+    simp only [statelessB, Bool.or_eq_true, decide_eq_true_eq, Bool.not_eq_true'] at h
+    simp only [Stateless]
+    rcases h with (h | h) | h
+    · exact Or.inl h
+    · exact Or.inr (Or.inl h)
+    · exact Or.inr (Or.inr h)
+  | .junk, _ => trivial
+  | .setContext, _ => trivial
+  | .count _, h => by simp [statelessB] at h
+  | .acc _, h => by simp [statelessB] at h
+  | .runIfBad _, h => by simp [statelessB] at h
+  | .dup, h => by simp [statelessB] at h
+theorem statelessLB_sound : ∀ ss : List Lena.C05.Spec, statelessLB ss = true → StatelessL ss
+  | [], _ => trivial
+  | s :: ss, h => by
+    simp only [statelessLB, Bool.and_eq_true] at h
+    exact ⟨statelessB_sound s h.1, statelessLB_sound ss h.2⟩
+end
+
+theorem commonB_sound (s : Lena.C05.Spec) (h : commonB s = true) : Common s := by
+  cases s <;> simp_all [commonB, Common]
+  exact statelessLB_sound _ h
+
+theorem commonLB_sound : ∀ ss : List Lena.C05.Spec, commonLB ss = true → CommonL ss
+  | [], _ => trivial
+  | s :: ss, h => by
+    simp only [commonLB, Bool.and_eq_true] at h
+    exact ⟨commonB_sound s h.1, commonLB_sound ss h.2⟩
+
 theorem stateless_common (s : Lena.C05.Spec) (h : Stateless s) : Common s := by
   cases s <;> simp_all [Stateless, Common]
 
@@ -1133,6 +1216,17 @@ def drive1 (prog : List Lena.C01.Spec) (flow : List Value) : Lena.C05.Outcome :=
 def FloatSafe (args : List Lena.C05.Spec) (flow : List Value) : Prop :=
   ∀ os, Lena.C05.Spec.toObjs args = .ok os → foldOK (args.map isNum) os (.ofList flow)
 
+/-- executable form of `FloatSafe` -/
+def floatSafeB (args : List Lena.C05.Spec) (flow : List Value) : Bool :=
+  match Lena.C05.Spec.toObjs args with
+  | .error _ => true
+  | .ok os => foldOKb (args.map isNum) os (.ofList flow)
+
+theorem floatSafeB_sound (args : List Lena.C05.Spec) (flow : List Value) (h : floatSafeB args flow = true) :
+    FloatSafe args flow := by
+  intro os hos
+  simpa [floatSafeB, hos, foldOK] using h
+
 /-- a program without `Sum`/`Mean` is float-safe on every flow -/
 theorem floatSafe_of_no_num (args : List Lena.C05.Spec) (h : ∀ s ∈ args, isNum s = false) (flow : List Value) :
     FloatSafe args flow := by
@@ -1166,6 +1260,13 @@ theorem driveSeq_agree (args : List Lena.C05.Spec) (hc : CommonL args) (flow : L
 theorem driveSeq_agree_no_num (args : List Lena.C05.Spec) (hc : CommonL args) (hn : ∀ s ∈ args, isNum s = false)
     (flow : List Value) : Lena.C05.driveSeq args flow = drive1 (specs1 args) flow :=
   driveSeq_agree args hc flow (floatSafe_of_no_num args hn flow)
+
+/-- the form the executable cross-check uses: whenever the two Boolean side conditions evaluate to `true`, the two
+drivers' functions agree -/
+theorem driveSeq_agree_checked (args : List Lena.C05.Spec) (flow : List Value)
+    (hc : commonLB args = true) (hf : floatSafeB args flow = true) :
+    Lena.C05.driveSeq args flow = drive1 (specs1 args) flow :=
+  driveSeq_agree args (commonLB_sound args hc) flow (floatSafeB_sound args flow hf)
 
 /-- non-vacuity / instances: `Sequence(inc, Filter(even), RunIf(pos, wrap), Slice(-1), StoreFilled(True))`
 and `Sequence(Filter(lt5), Sum())` on `1..5` -/
@@ -1987,5 +2088,333 @@ example :
     (∃ st, Lena.C05.feedList (Lena.C05.chainSink a (pres5 l)) (Lena.C05.chainInit a.init (pres5 l))
         [⟨3, []⟩, ⟨7, []⟩, ⟨4, []⟩, ⟨1, []⟩] = .stop st ∧ Lena.C05.chainAcc (pres5 l) st = [6, 8]) :=
   ⟨⟨rfl, rfl, ⟨rfl, rfl, rfl⟩, rfl, rfl⟩, rfl, _, rfl, rfl⟩
+
+end Lena.Bridge.Flow
+
+namespace Lena.Bridge.Flow
+open Lena.Flow
+
+/-! ## 10. what the executable cross-check (`drivers/BridgeFlow.lean`, `harness/props/bridge_flow.py`) evaluates
+
+For a program over the part of the vocabulary that C01/C05 *and* C02 have (callables `inc`, `neg`, `ident`;
+all selectors; `Slice`; `Count`; `RunIf` around stateless elements of these kinds) and a flow of
+`(int, {name: int})` pairs, the driver evaluates the C05 transcription (`driveSeq`), the C01 transcription
+(`drive1 ∘ specs1`), the C02 machines (`seqRun … take`) and C02's list semantics (`seqDen`) on the C02 program
+`stages2`, and the harness demands that all of them equal what the real `Sequence(*args).run(flow)` yields.
+`stages2_rel` shows that `stages2` is an instance of the relation `StageRel` the bridge theorems of section 4
+are about. -/
+
+/-- the plain callables both vocabularies have -/
+def fn2 : Fn → Option Lena.C02.Fn
+  | .inc => some (.add 1)
+  | .neg => some (.mul (-1))
+  | .ident => some .ident
+  | _ => none
+
+/-- the selectors (both vocabularies have all five) -/
+def pred2 : Pred → Lena.C02.Pred
+  | .even => .mod 2 0
+  | .pos => .ge 1
+  | .lt5 => .lt 5
+  | .all => .all
+  | .none => .none
+
+theorem fn2_emb (f : Fn) (g : Lena.C02.Fn) (h : fn2 f = some g) (v : Lena.C02.V) :
+    f.call (vToValue v) = .ok (vToValue (g.app v)) := by
+  cases f <;> simp [fn2] at h <;> subst h
+  · exact fn_inc_emb v
+  · exact fn_neg_emb v
+  · exact fn_ident_emb v
+
+theorem pred2_emb (p : Pred) (v : Lena.C02.V) : p.eval (vToValue v) = .ok ((pred2 p).eval v) := by
+  cases p
+  · exact pred_even_emb v
+  · exact pred_pos_emb v
+  · exact pred_lt5_emb v
+  · exact pred_all_emb v
+  · exact pred_none_emb v
+
+mutual
+/-- the C02 stage for an element description, where C02 has one (stateless inner sequence for `RunIf`) -/
+def stage2 : Lena.C05.Spec → Option (Lena.C02.Stage Lena.C02.V)
+  | .call f =>
+    match fn2 f with
+    | some g => some (.map g.app)
+    | none => none
+  | .filter p => some (.filter (pred2 p).eval)
+  | .slice a b s =>
+    match Lena.C17.mkSlice a b s with
+    | .islice a' b' st => some (.islice a' b' st)
+    | .negative a' b' st => some (.negslice a' b' st)
+    | .valueError => none
+  | .count n => some (.count (Lena.C02.markCount n 0))
+  | .runIf p inner =>
+    -- a `Count` inside a `RunIf` keeps counting from one selected value to the next: not a stateless inner sequence
+    if statelessLB inner then
+      match stages2 inner with
+      | some els => some (.runIf Unit () (pred2 p).eval (fun _ v => (Lena.C02.seqDen els [v], ())))
+      | none => none
+    else none
+  | _ => none
+def stages2 : List Lena.C05.Spec → Option (List (Lena.C02.Stage Lena.C02.V))
+  | [] => some []
+  | s :: ss =>
+    match stage2 s, stages2 ss with
+    | some e, some es => some (e :: es)
+    | _, _ => none
+end
+
+mutual
+/-- the C01 stream function of the same description (what `Element.den` of `Spec.toElement (spec1 s)` is) -/
+def stage1of : Lena.C05.Spec → Lena.C01.Stage Value
+  | .call f => fun s => .ok (Lena.C01.mapS f.call s)
+  | .filter p => fun s => .ok (Lena.C01.filterS p.eval s)
+  | .slice a b st => fun s => .ok (Lena.C01.sliceS (Lena.C17.mkSlice a b st) s)
+  | .count n => fun s => .ok (Lena.C01.countS n 0 s)
+  | .runIf p inner => fun s => .ok (Lena.C01.runIfS p.eval (Lena.C01.composeS (stages1of inner)) s)
+  | _ => fun s => .ok s
+def stages1of : List Lena.C05.Spec → List (Lena.C01.Stage Value)
+  | [] => []
+  | s :: ss => stage1of s :: stages1of ss
+end
+
+theorem mkSlice_islice_wf (a b s : Option Int) (a' : Nat) (b' : Option Nat) (st : Nat)
+    (h : Lena.C17.mkSlice a b s = .islice a' b' st) : 1 ≤ st := Lena.C05.mkSlice_islice_step a b s a' b' st h
+
+theorem mkSlice_negative_wf (a b s a' b' : Option Int) (st : Nat)
+    (h : Lena.C17.mkSlice a b s = .negative a' b' st) : Lena.C17.HasNeg a' b' ∧ 1 ≤ st := by
+  obtain ⟨h1, h2, h3⟩ := Lena.C17.mkSlice_negative_hasNeg a b s a' b' st h
+  subst h1 h2
+  refine ⟨h3, ?_⟩
+  unfold Lena.C17.mkSlice at h
+  split at h
+  · split at h <;> cases h
+  · simp only [] at h
+    split at h
+    · cases h
+    · rename_i hst
+      simp only [Lena.C17.SliceKind.negative.injEq] at h
+      obtain ⟨_, _, rfl⟩ := h
+      omega
+
+mutual
+/-- the C02 program the cross-check evaluates is related, element by element, to the C01 stream functions —
+so `pipeline_den` and `machines_yield_stream_prefix` are about exactly what is executed -/
+theorem stage2_rel : ∀ (s : Lena.C05.Spec) (e : Lena.C02.Stage Lena.C02.V), stage2 s = some e →
+    StageRel vToValue e (stage1of s)
+  | .call f, e, h => by
+    simp only [stage2] at h
+    cases hf : fn2 f with
+    | none => simp [hf] at h
+    | some g =>
+      simp only [hf, Option.some.injEq] at h
+      subst h
+      exact .map g.app f.call (fn2_emb f g hf)
+  | .filter p, e, h => by
+    simp only [stage2, Option.some.injEq] at h
+    subst h
+    exact .filter _ _ (pred2_emb p)
+  | .slice a b s, e, h => by
+    simp only [stage2] at h
+    cases hk : Lena.C17.mkSlice a b s with
+    | valueError => simp [hk] at h
+    | islice a' b' st =>
+      simp only [hk, Option.some.injEq] at h
+      subst h
+      simp only [stage1of, hk]
+      exact .islice a' b' st (mkSlice_islice_wf a b s a' b' st hk)
+    | negative a' b' st =>
+      simp only [hk, Option.some.injEq] at h
+      subst h
+      simp only [stage1of, hk]
+      obtain ⟨h1, h2⟩ := mkSlice_negative_wf a b s a' b' st hk
+      exact .negslice a' b' st h1 h2
+  | .count n, e, h => by
+    simp only [stage2, Option.some.injEq] at h
+    subst h
+    exact .count _ n 0 (markCount_emb n 0)
+  | .runIf p inner, e, h => by
+    simp only [stage2] at h
+    cases hsl : statelessLB inner with
+    | false => simp [hsl] at h
+    | true =>
+    cases hi : stages2 inner with
+    | none => simp [hsl, hi] at h
+    | some els =>
+      simp only [hsl, hi, if_true, Option.some.injEq] at h
+      subst h
+      have hrel := stages2_rel inner els hi
+      refine .runIf Unit () _ _ _ _ (pred2_emb p) ?_
+      intro _ v
+      have := pipeline_den vToValue els (stages1of inner) hrel [v]
+      simp only [List.map_cons, List.map_nil] at this
+      rw [this]
+      rfl
+  | .var _ _, _, h => by simp [stage2] at h
+  | .reverse, _, h => by simp [stage2] at h
+  | .end_, _, h => by simp [stage2] at h
+  | .acc _, _, h => by simp [stage2] at h
+  | .syn _ _ _, _, h => by simp [stage2] at h
+  | .junk, _, h => by simp [stage2] at h
+  | .setContext, _, h => by simp [stage2] at h
+  | .runIfBad _, _, h => by simp [stage2] at h
+  | .dup, _, h => by simp [stage2] at h
+theorem stages2_rel : ∀ (ss : List Lena.C05.Spec) (es : List (Lena.C02.Stage Lena.C02.V)), stages2 ss = some es →
+    AllRelU (StageRel vToValue) es (stages1of ss)
+  | [], es, h => by
+    simp only [stages2, Option.some.injEq] at h
+    subst h
+    exact .nil
+  | s :: ss, es, h => by
+    simp only [stages2] at h
+    cases h1 : stage2 s with
+    | none => simp [h1] at h
+    | some e =>
+      cases h2 : stages2 ss with
+      | none => simp [h1, h2] at h
+      | some es' =>
+        simp only [h1, h2, Option.some.injEq] at h
+        subst h
+        exact .cons (stage2_rel s e h1) (stages2_rel ss es' h2)
+end
+
+/-- **machines ↔ streams on what the cross-check executes**: for every program that has a C02 counterpart, every
+flow of C02 values, sufficient fuel and every `k`: the first `k` values pulled out of the C02 machines are the
+first `k` values of the C01 stream functions' composition on the embedded flow, which ends normally and yields
+exactly C02's list semantics -/
+theorem crosscheck_c02_c01 (args : List Lena.C05.Spec) (els : List (Lena.C02.Stage Lena.C02.V))
+    (h : stages2 args = some els) (xs : List Lena.C02.V) (fu : Nat)
+    (hfu : Lena.C02.seqFuelOK els (Lena.C02.SF.ofList xs) fu) (k : Nat) :
+    Lena.C01.composeS (stages1of args) (.ofList (xs.map vToValue))
+      = .ok (.ofList ((Lena.C02.seqDen els xs).map vToValue)) ∧
+    ((((Lena.C02.seqRun els (Lena.C02.Pipe.ofList xs)).take fu k).1).map Prod.fst).map vToValue
+      = ((Lena.C02.seqDen els xs).map vToValue).take k := by
+  have hrel := stages2_rel args els h
+  have h1 := pipeline_den vToValue els (stages1of args) hrel xs
+  refine ⟨h1, ?_⟩
+  have h2 := (machines_yield_stream_prefix vToValue els (stages1of args) hrel xs fu hfu k).1
+  rw [h2, h1]
+  rfl
+
+/-- what `Sequence.__init__` needs of an element, and its stream function -/
+def DenIs (e : Lena.C01.Element Value) (t : Lena.C01.Stage Value) : Prop :=
+  e.hasNoData = false ∧ e.convertible = true ∧ e.den = t
+
+theorem denIs_run (e : Lena.C01.Element Value) (t : Lena.C01.Stage Value) (hn : e.hasNoData = false)
+    (hr : e.run = .method) (ht : e.runDen = t) : DenIs e t := by
+  refine ⟨hn, ?_, ?_⟩
+  · simp [Lena.C01.Element.convertible, hr, Lena.C01.Attr.callable]
+  · simp [Lena.C01.Element.den, hr, Lena.C01.Attr.callable, ht]
+
+theorem denIs_okAll : ∀ (es : List (Lena.C01.Element Value)) (ts : List (Lena.C01.Stage Value)),
+    AllRelU DenIs es ts → Lena.C01.okAll es ∧ (Lena.C01.dataSeq es).map Lena.C01.Element.den = ts
+  | _, _, .nil => ⟨Lena.C01.okAll_nil, rfl⟩
+  | _, _, .cons (x := e) (y := t) (xs := es) (ys := ts) hd hs => by
+    obtain ⟨ih1, ih2⟩ := denIs_okAll es ts hs
+    refine ⟨?_, ?_⟩
+    · rw [Lena.C01.okAll_cons]
+      refine ⟨?_, ih1⟩
+      intro e' he' _
+      simp at he'; subst he'
+      exact hd.2.1
+    · have : Lena.C01.dataSeq (e :: es) = e :: Lena.C01.dataSeq es := by simp [Lena.C01.dataSeq, hd.1]
+      rw [this, List.map_cons, hd.2.2, ih2]
+
+theorem mkSequence_denIs (es : List (Lena.C01.Element Value)) (ts : List (Lena.C01.Stage Value))
+    (h : AllRelU DenIs es ts) : ∃ sq, Lena.C01.mkSequence es = .ok sq ∧ sq.run = Lena.C01.composeS ts := by
+  obtain ⟨hok, hmap⟩ := denIs_okAll es ts h
+  obtain ⟨sq, h1, h2, _⟩ := Lena.C01.mkSequence_ok es hok
+  exact ⟨sq, h1, by rw [h2, Lena.C01.denAll, hmap]⟩
+
+mutual
+/-- for a description that has a C02 counterpart, the element C01 builds has the stream function `stage1of` -/
+theorem stage2_denIs : ∀ (s : Lena.C05.Spec) (e2 : Lena.C02.Stage Lena.C02.V), stage2 s = some e2 →
+    ∃ e, Lena.C01.Spec.toElement (spec1 s) = .ok e ∧ DenIs e (stage1of s)
+  | .call f, _, _ => ⟨_, rfl, rfl, rfl, rfl⟩
+  | .filter p, _, _ => ⟨_, rfl, denIs_run _ _ rfl rfl rfl⟩
+  | .slice a b st, e2, h => by
+    simp only [stage2] at h
+    simp only [spec1, Lena.C01.Spec.toElement, stage1of]
+    cases hk : Lena.C17.mkSlice a b st with
+    | valueError => simp [hk] at h
+    | islice a' b' st' => exact ⟨_, rfl, denIs_run _ _ rfl rfl rfl⟩
+    | negative a' b' st' => exact ⟨_, rfl, denIs_run _ _ rfl rfl rfl⟩
+  | .count n, _, _ => ⟨_, rfl, denIs_run _ _ rfl rfl rfl⟩
+  | .runIf p inner, e2, h => by
+    simp only [stage2] at h
+    cases hsl : statelessLB inner with
+    | false => simp [hsl] at h
+    | true =>
+    cases hi : stages2 inner with
+    | none => simp [hsl, hi] at h
+    | some els =>
+      obtain ⟨es, h1, hall⟩ := stages2_denIs inner els hi
+      obtain ⟨sq, hm, hrun⟩ := mkSequence_denIs es (stages1of inner) hall
+      have hes := specs_histFree inner (statelessLB_sound inner hsl) es h1
+      have hrd := (runIfElement_histFree p sq (seq_histFree es sq hes hm)).2
+      refine ⟨runIfElement p sq.toElement, ?_, ?_⟩
+      · simp only [spec1]
+        rw [toElement_runIf p (specs1 inner) (specs1_not_single_seq inner), h1]
+        simp [hm, Except.map]
+      · refine denIs_run _ _ rfl rfl ?_
+        rw [hrd, hrun]
+        rfl
+  | .var _ _, _, h => by simp [stage2] at h
+  | .reverse, _, h => by simp [stage2] at h
+  | .end_, _, h => by simp [stage2] at h
+  | .acc _, _, h => by simp [stage2] at h
+  | .syn _ _ _, _, h => by simp [stage2] at h
+  | .junk, _, h => by simp [stage2] at h
+  | .setContext, _, h => by simp [stage2] at h
+  | .runIfBad _, _, h => by simp [stage2] at h
+  | .dup, _, h => by simp [stage2] at h
+theorem stages2_denIs : ∀ (ss : List Lena.C05.Spec) (es2 : List (Lena.C02.Stage Lena.C02.V)), stages2 ss = some es2 →
+    ∃ es, Lena.C01.Spec.toElements (specs1 ss) = .ok es ∧ AllRelU DenIs es (stages1of ss)
+  | [], _, _ => ⟨[], rfl, .nil⟩
+  | s :: ss, es2, h => by
+    simp only [stages2] at h
+    cases h1 : stage2 s with
+    | none => simp [h1] at h
+    | some e2 =>
+      cases h2 : stages2 ss with
+      | none => simp [h1, h2] at h
+      | some es2' =>
+        obtain ⟨e, he, hd⟩ := stage2_denIs s e2 h1
+        obtain ⟨es, hes, hds⟩ := stages2_denIs ss es2' h2
+        exact ⟨e :: es, by simp [specs1, Lena.C01.Spec.toElements, he, hes], .cons hd hds⟩
+end
+
+/-- **what `drivers/C01.lean` computes for such a program is the composition of the stream functions**
+(no constructor fails, every element is converted) -/
+theorem drive1_stages1of (args : List Lena.C05.Spec) (els : List (Lena.C02.Stage Lena.C02.V))
+    (h : stages2 args = some els) (flow : List Value) :
+    drive1 (specs1 args) flow
+      = .ran (to5 (Lena.C01.observe (Lena.C01.composeS (stages1of args) (.ofList flow)))) := by
+  obtain ⟨es, h1, hall⟩ := stages2_denIs args els h
+  obtain ⟨sq, hm, hrun⟩ := mkSequence_denIs es (stages1of args) hall
+  simp only [drive1, Lena.C01.Spec.toElement, h1, hm, Except.map]
+  rw [Lena.C01.toElement_invokeRun, hrun]
+
+/-- **End to end, C01's driver function ↔ C02's machines**: for every program that has a C02 counterpart, every
+flow of C02 values (embedded as `(data, context)` pairs), sufficient fuel and every `k`: what `drivers/C01.lean`
+computes for `Sequence(*args).run(flow)` ends normally, and its first `k` values are the values a consumer pulls
+out of C02's chain of generator machines -/
+theorem crosscheck_drive1_c02 (args : List Lena.C05.Spec) (els : List (Lena.C02.Stage Lena.C02.V))
+    (h : stages2 args = some els) (xs : List Lena.C02.V) (fu : Nat)
+    (hfu : Lena.C02.seqFuelOK els (Lena.C02.SF.ofList xs) fu) (k : Nat) :
+    drive1 (specs1 args) (xs.map vToValue) = .ran (.ofList ((Lena.C02.seqDen els xs).map vToValue)) ∧
+    ((((Lena.C02.seqRun els (Lena.C02.Pipe.ofList xs)).take fu k).1).map Prod.fst).map vToValue
+      = ((Lena.C02.seqDen els xs).map vToValue).take k := by
+  obtain ⟨h1, h2⟩ := crosscheck_c02_c01 args els h xs fu hfu k
+  refine ⟨?_, h2⟩
+  rw [drive1_stages1of args els h, h1]
+  rfl
+
+/-- an instance: `Sequence(inc, Filter(even), RunIf(lt5, neg), Slice(-1), Count("n"))` -/
+example : ∃ els, stages2 [.call .inc, .filter .even, .runIf .lt5 [.call .neg], .slice none (some (-1)) none,
+    .count "n"] = some els ∧
+    Lena.C02.seqDen els [⟨1, []⟩, ⟨3, [("a", 5)]⟩, ⟨5, []⟩, ⟨7, []⟩]
+      = [⟨-2, []⟩, ⟨-4, [("a", 5)]⟩, ⟨6, [("n", 3)]⟩] :=
+  ⟨_, rfl, by decide⟩
 
 end Lena.Bridge.Flow
